@@ -204,7 +204,7 @@ def base_spec(rng, p, q):
     spec["pars"].append(dict(name="s", unit=pick((1, -1, 0, 0)), dk=str(rng.choice(["lognormal", "const", "determ", "pyfloat"]))))
     spec["pars"].append(dict(name="K", unit=pick((1, -1, 0, 0)), dk=str(rng.choice(["normal", "fcm"]))))
     for i in range(max(p, 0)):
-        spec["pars"].append(dict(name=f"v{i}", unit=pick((1, -1 - i, 0, 0)), dk=str(rng.choice(["normal", "normal", "fcm"]))))
+        spec["pars"].append(dict(name=f"v{i}", unit=pick((1, -1 - i, 0, 0)), dk="normal"))     # FixedCompanionMass is admissible for K only
     for j in range(1, q + 1):
         spec["offsets"].append(dict(name=f"dv0_{j}", unit=pick((1, -1, 0, 0)), dk="normal"))
     rng.shuffle(spec["pars"])
@@ -454,6 +454,9 @@ def grid_case(ctx, g, rng, index):
     p, q = BASES[index % len(BASES)]
     spec = base_spec(rng, p, q)
     judge_prior(ctx, g, copy_spec(spec), "base")
+    # single mutations only discriminate when the base itself is admissible
+    if wellformed_oracle(fix_form(copy_spec(spec)))[0]:
+        ctx.count("grid: base prior admissible")
     for tag, s in single_mutations(spec, rng):
         judge_prior(ctx, g, s, tag)
 
@@ -977,6 +980,7 @@ def run_case(ctx, g):
 
 
 def post(ctx):
+    ctx.require("grid cases whose base prior is admissible (mutations discriminate)", ctx.counters["grid: base prior admissible"], 3)
     c = ctx.counters
     ctx.rule = RULE
     ctx.extra["exhaustive"] = False
